@@ -13,6 +13,7 @@ import (
 	"io"
 	"net"
 	"os"
+	"regexp"
 	"runtime"
 	"sort"
 	"strings"
@@ -466,6 +467,8 @@ func (s *Sim) settle() {
 // scheduler does not end a step while anybody is parked. Parked goroutines wake at
 // instants that are 2 modulo 4; the scheduler's own are 0 modulo 4, detached producers'
 // are odd.
+var rePointer = regexp.MustCompile(`0x[0-9a-f]{7,}|\(0x[0-9a-f]+\)`)
+
 type yieldHook struct{ s *Sim }
 
 func (h yieldHook) Levels() []logrus.Level {
@@ -477,10 +480,20 @@ func (h yieldHook) Fire(e *logrus.Entry) error {
 	if !s.yieldOn.Load() {
 		return nil
 	}
+	// the whole message and its fields: two goroutines logging at the same instant should
+	// not be parked for the same time
 	m := e.Message
-	if len(m) > 20 {
-		m = m[:20]
+	if len(e.Data) > 0 {
+		ks := make([]string, 0, len(e.Data))
+		for k := range e.Data {
+			ks = append(ks, k)
+		}
+		sort.Strings(ks)
+		for _, k := range ks {
+			m += "|" + k + "=" + fmt.Sprint(e.Data[k])
+		}
 	}
+	m = rePointer.ReplaceAllString(m, "PTR") // addresses differ from process to process
 	now := int64(s.since())
 	x := s.hash("yield", hashStr(m), uint64(now))
 	if int(x%100) >= s.cfg.LogYield {
